@@ -900,6 +900,22 @@ func (g *fnGen) returnStmt(s *ast.ReturnStmt, k kctx) []string {
 		g.runDeferred(&p)
 		return emitPre(p, k.ret(g.resultValue(tmps)))
 	}
+	if g.fi.mutates && g.fi.mutParam == nil && g.deferred == nil && len(stage11.transparent) > 0 && len(s.Results) == 1 {
+		// return x.f.M(..) with M modifying its receiver (a field path of this method's receiver):
+		// the call first, then the receiver's new value and the results
+		if call, ok := ast.Unparen(s.Results[0]).(*ast.CallExpr); ok {
+			if c := g.t.calleeOf(g.fi.pk, call); c != nil && !c.errCtor && c.mutates {
+				var tmps []string
+				for i := 0; i < sig.Results().Len(); i++ {
+					tmps = append(tmps, g.fresh())
+				}
+				if !g.callStmt(call, &p, tmps...) {
+					g.failf(s, "return of this call")
+				}
+				return emitPre(p, k.ret(g.resultValue(tmps)))
+			}
+		}
+	}
 	if g.fi.mutParam != nil && len(s.Results) == 1 && sig.Results().Len() == 1 {
 		// return h.M(..) / return f(h, ..) with a call that rebinds the modified
 		// interface parameter: the call first, then the parameter's new value and the result
@@ -1409,6 +1425,9 @@ func (g *fnGen) assignTo(lhs ast.Expr, v string) []string {
 		if !ok || sel.Kind() != types.FieldVal {
 			g.failf(lhs, "assignment to this selector")
 		}
+		if g.t.transparentSel(g.fi.pk, x) {
+			return g.assignTo(x.X, v)
+		}
 		if g.t.isViaSel(g.fi.pk, x) {
 			// x.f with f a --via field: the instance it stands for
 			return []string{"let " + g.viaVar(lhs, x) + " := " + v + " in"}
@@ -1802,6 +1821,9 @@ func (g *fnGen) expr(e ast.Expr, p *[]binding) string {
 			if sel.Kind() != types.FieldVal {
 				g.failf(e, "method value")
 			}
+			if g.t.transparentSel(g.fi.pk, x) {
+				return g.expr(x.X, p)
+			}
 			if g.t.isViaSel(g.fi.pk, x) {
 				return g.viaVar(e, x)
 			}
@@ -1868,6 +1890,13 @@ func (g *fnGen) expr(e ast.Expr, p *[]binding) string {
 		case token.ADD:
 			return g.expr(x.X, p)
 		case token.AND:
+			// &x with x a variable of a named slice type: a pointer to a named slice IS the slice variable
+			// (sound as long as the variable is not used after the pointer escapes: here it is returned)
+			if id, ok := ast.Unparen(x.X).(*ast.Ident); ok && ptrSliceOf(g.typeOf(e)) {
+				if _, isVar := g.info.Uses[id].(*types.Var); isVar {
+					return g.expr(id, p)
+				}
+			}
 			if cl, ok := ast.Unparen(x.X).(*ast.CompositeLit); ok {
 				if on := g.t.objectOf(g.typeOf(e)); on != nil {
 					return g.objComposite(cl, on, p)
@@ -2160,6 +2189,16 @@ func (g *fnGen) binary(x *ast.BinaryExpr, p *[]binding) string {
 			if (g.t.objectOf(g.typeOf(other)) != nil || g.t.opaqueName(g.typeOf(other)) != "") && (x.Op == token.EQL || x.Op == token.NEQ) {
 				// an object pointer: nil is 0
 				t := "(" + paren(g.expr(other, p)) + " =? 0)"
+				if x.Op == token.NEQ {
+					return "(negb " + t + ")"
+				}
+				return t
+			}
+			if isSliceType(g.typeOf(other)) && (x.Op == token.EQL || x.Op == token.NEQ) {
+				// a slice is nil iff its descriptor is nil_slice (all four components 0); TRUSTED: no
+				// non-nil slice has that descriptor (true when array 0 of the heap is not an empty make result)
+				sv := paren(g.expr(other, p))
+				t := "(andb (Nat.eqb (s_arr " + sv + ") 0) (andb (s_off " + sv + " =? 0) (andb (s_len " + sv + " =? 0) (s_cap " + sv + " =? 0))))"
 				if x.Op == token.NEQ {
 					return "(negb " + t + ")"
 				}
